@@ -167,18 +167,23 @@ Proof.
   intros Ht. unfold session_expired. rewrite orb_true_iff, andb_true_iff, negb_true_iff.
   rewrite !N.eqb_eq, N.eqb_neq, N.leb_le. replace (N.min t 4294967295) with t by lia. tauto.
 Qed.
-(* retransmit writes the queued packets in queue order, nothing else *)
+(* retransmit writes the queued packets in queue order, nothing else; each takes one slot of the send quota *)
+Definition same_but_quota (x y : ctx) : Prop :=
+  awaiting x = awaiting y /\ subs x = subs y /\ retx x = retx y /\ await_rel x = await_rel y /\ rmax x = rmax y /\
+  maxpkt x = maxpkt y /\ sei x = sei y /\ disc_ts x = disc_ts y.
 Lemma retransmit_wire l : forall s, wbudget s = None ->
   wire_ev (fst (retransmit s l)) = wire_ev s ++ concat (map snd l) /\ snd (retransmit s l) = true /\
-  c (fst (retransmit s l)) = c s /\ ops (fst (retransmit s l)) = ops s.
+  same_but_quota (c (fst (retransmit s l))) (c s) /\ quota (c (fst (retransmit s l))) = quota (c s) - lenN l /\
+  ops (fst (retransmit s l)) = ops s.
 Proof.
   induction l as [|[a pkt] l IH]; intros s Hb; cbn [retransmit map concat snd].
-  - rewrite app_nil_r. auto.
-  - rewrite write_nofault_snd by exact Hb.
-    destruct (IH (fst (write s pkt))) as [H1 [H2 [H3 H4]]].
-    { rewrite write_nofault_fst by exact Hb. reflexivity. }
-    rewrite H1, H2, H3, H4, write_c, write_ops, write_nofault_fst by exact Hb. cbn [wire_ev set_wire].
-    rewrite app_assoc. auto.
+  - rewrite app_nil_r, lenN_nil, N.sub_0_r. unfold same_but_quota. repeat split; reflexivity.
+  - rewrite write_nofault_snd, !write_nofault_fst by exact Hb.
+    set (s1 := set_c (set_wire s None (wire_ev s ++ pkt)) (with_quota (c (set_wire s None (wire_ev s ++ pkt))) (quota (c (set_wire s None (wire_ev s ++ pkt))) - 1))).
+    destruct (IH s1) as (H1 & H2 & H3 & H4 & H5); [reflexivity|].
+    rewrite H1, H2, H4, H5. unfold same_but_quota in *. unfold s1 in *.
+    cbn [wire_ev set_c set_wire c ops quota with_quota awaiting subs retx await_rel rmax maxpkt sei disc_ts] in *.
+    rewrite app_assoc, lenN_cons. split; [reflexivity|]. split; [reflexivity|]. split; [exact H3|]. split; [lia|reflexivity].
 Qed.
 (* what enters and leaves the retransmit queue *)
 Lemma retx_publish s i ph a pkt : size_ok (c s) pkt = true -> ptype_of pkt = 3 -> quota (c s) <> 0 ->
